@@ -150,10 +150,9 @@ def run(ctx: Ctx) -> None:
     c01.r1(ctx, dr, "C03.R3", deliver_direct=False, deliver_funcs={h_ready.key, h_hello.key, h_hs.key, h_closed.key})
     # each arm passes the frame just read
     reads = [c for c in own_nodes(dr.node) if isinstance(c, ast.Call) and isinstance(c.func, ast.Attribute) and c.func.attr == "_read" and c.args and not isinstance(c.args[0], ast.Constant)]
-    frame_var = None
-    for n in own_nodes(dr.node):
-        if isinstance(n, ast.NamedExpr) and reads and n.value is reads[0]:
-            frame_var = n.target.id
+    from ..astutil import bound_name
+
+    frame_var = bound_name(dr.node, reads[0]) if reads else None
     for h in (h_ready, h_hello, h_hs, h_closed):
         cs = [c for c in own_nodes(dr.node) if isinstance(c, ast.Call) and h in res.callees(dr, c).funcs]
         ctx.ob("C03.R3", dr, f"{h.name} receives the complete frame just read", len(cs) == 1 and [norm(a) for a in cs[0].args] == [frame_var], f"{[norm(a) for c in cs for a in c.args]}")
@@ -161,39 +160,7 @@ def run(ctx: Ctx) -> None:
     # ------------------------------------------------------------------ R4
     ghl = cfg_of(ctx, h_hello)
     hp = [p for p in h_hello.param_names() if p != "self"][0]
-    # locals
-    name_var = idx_var = None
-    for n in own_nodes(h_hello.node):
-        if isinstance(n, ast.Assign) and isinstance(n.value, ast.Call) and isinstance(n.value.func, ast.Attribute) and n.value.func.attr == "find":
-            idx_var = norm(n.targets[0])
-        if isinstance(n, ast.Assign) and isinstance(n.value, ast.Call) and isinstance(n.value.func, ast.Attribute) and n.value.func.attr == "decode":
-            name_var = norm(n.targets[0])
-
-    name_full = norm(inline(h_hello, ast.Name(id=name_var, ctx=ast.Load()))) if name_var else None
-    idx_full = norm(inline(h_hello, ast.Name(id=idx_var, ctx=ast.Load()))) if idx_var else None
-
-    def classify(n: Node):
-        t = n.ast
-        if t is None:
-            return None
-        if norm(t) == hp:
-            return ("nonempty", True)
-        if isinstance(t, ast.Compare) and len(t.ops) == 1:
-            l, r = norm(inline(h_hello, t.left)), norm(inline(h_hello, t.comparators[0]))
-            op = t.ops[0]
-            if not isinstance(op, (ast.Eq, ast.NotEq, ast.Is, ast.IsNot)):
-                return None
-            eq = isinstance(op, (ast.Eq, ast.Is))
-            if l == f"{hp}[0]" and isinstance(t.comparators[0], ast.Constant):
-                if t.comparators[0].value == 1:
-                    return ("proto_ok", eq)
-            if idx_full and l == idx_full and r == "-1":
-                return ("name_present", not eq)
-            if {l, r} == {"self._expected_name", "None"}:
-                return ("expected_set", not eq)
-            if name_full and {l, r} == {"self._expected_name", name_full}:
-                return ("names_equal", eq)
-        return None
+    classify, name_var, idx_var = hello_classifier(ctx, h_hello)
 
     variables = ["nonempty", "proto_ok", "name_present", "expected_set", "names_equal"]
     bad_name_nodes = []
@@ -292,3 +259,44 @@ def _attr_set_tokens(n: Node) -> list[str]:
             if isinstance(t, ast.Attribute) and norm(t.value) == "self" and not (isinstance(n.ast.value, ast.Constant) and n.ast.value.value is None):
                 out.append(f"set:{t.attr}")
     return out
+
+
+def hello_classifier(ctx: Ctx, h_hello: Func):
+    """Atoms of the Noise hello handler (shared with C04): nonempty, proto_ok, name_present, expected_set, names_equal."""
+    hp = [p for p in h_hello.param_names() if p != "self"][0]
+    name_var = idx_var = None
+    for n in own_nodes(h_hello.node):
+        if isinstance(n, ast.Assign) and isinstance(n.value, ast.Call) and isinstance(n.value.func, ast.Attribute) and n.value.func.attr == "find":
+            idx_var = norm(n.targets[0])
+        if isinstance(n, ast.Assign) and isinstance(n.value, ast.Call) and isinstance(n.value.func, ast.Attribute) and n.value.func.attr == "decode":
+            name_var = norm(n.targets[0])
+    name_full = norm(inline(h_hello, ast.Name(id=name_var, ctx=ast.Load()))) if name_var else None
+    idx_full = norm(inline(h_hello, ast.Name(id=idx_var, ctx=ast.Load()))) if idx_var else None
+
+    def classify(n: Node):
+        t = n.ast
+        if t is None:
+            return None
+        if norm(t) == hp:
+            return ("nonempty", True)
+        if isinstance(t, ast.Compare) and len(t.ops) == 1:
+            l, r = norm(inline(h_hello, t.left)), norm(inline(h_hello, t.comparators[0]))
+            op = t.ops[0]
+            if l == f"len({hp})" and isinstance(t.comparators[0], ast.Constant) and t.comparators[0].value == 0 and isinstance(op, (ast.Eq, ast.NotEq, ast.Gt)):
+                return ("nonempty", not isinstance(op, ast.Eq))
+            if not isinstance(op, (ast.Eq, ast.NotEq, ast.Is, ast.IsNot)):
+                return None
+            eq = isinstance(op, (ast.Eq, ast.Is))
+            if l == f"{hp}[0]" and isinstance(t.comparators[0], ast.Constant):
+                if t.comparators[0].value == 1:
+                    return ("proto_ok", eq)
+            if idx_full and l == idx_full and r == "-1":
+                return ("name_present", not eq)
+            if {l, r} == {"self._expected_name", "None"}:
+                return ("expected_set", not eq)
+            if name_full and {l, r} == {"self._expected_name", name_full}:
+                return ("names_equal", eq)
+        return None
+
+    return classify, name_var, idx_var
+
